@@ -152,6 +152,11 @@ def call(kind, ds, ss, nm, unit, cand, algs=None, warm=None):
 
 
 def run_history(case):
+    """each history in a forked child: state the library keeps at class or module level cannot leak into the next one"""
+    return core.isolated(_run_history, case)
+
+
+def _run_history(case):
     """case: {"D", "naming", "sch", "calls": [...], "seed"}"""
     D, (B, T, unit) = case["D"], case["sch"]
     ne = max(x for r in D for b in r for x in b)
